@@ -164,6 +164,17 @@ func runPoolGated(sc PScen) []PEv {
 		if n >= want {
 			break
 		}
+		bad := false
+		mu.Lock()
+		for _, e := range log {
+			if e.K == "panic" || e.K == "timeout" {
+				bad = true
+			}
+		}
+		mu.Unlock()
+		if bad {
+			break // the scenario has already gone wrong: nothing to wait for
+		}
 		time.Sleep(200 * time.Microsecond)
 	}
 	mu.Lock()
